@@ -388,6 +388,13 @@ ZeroFill(L, bfix, chlen) ==
           ELSE IF mine \cap isb # {} THEN (CHOOSE a \in mine \cap isb : TRUE)[2]
           ELSE FoldLeft(LAMBDA acc, a : acc + a[2], 0, SetToSeq(mine))]
 
+\* every group count the generator wants to store fits the attribute that holds it (e.g. numMeas is a 5-bit flag: c <= 31)
+CountsFit(L) ==
+    \A q \in 1..Len(L.fixes) :
+        LET s == LayIdx(L.lay, L.fixes[q].n) IN
+        \A i \in s : IF L.lay[i].k = "x" THEN L.fixes[q].v < 2 ^ L.lay[i].w
+                      ELSE L.lay[i].size >= 4 \/ L.fixes[q].v < 256 ^ L.lay[i].size
+
 \* names a layout exposes, in order (high-precision companions fold into their base attribute)
 ExposedNames(lay) == SelectSeq([i \in 1..Len(lay) |-> IF lay[i].x = 1 /\ ~IsHP(lay[i].n) THEN lay[i].n ELSE ""], LAMBDA n : n # "")
 AttrNames(attrs) == [i \in 1..Len(attrs) |-> attrs[i].n]
